@@ -34,16 +34,6 @@ def applyChoiSpec [Add α] [Mul α] [Zero α] (J : Nat → Nat → α) (di0 di1 
     (X : Nat → Nat → α) : Nat → Nat → α :=
   fun a b => sumN di0 fun i => sumN di1 fun j => X i j * J (i * do0 + a) (j * do1 + b)
 
-/-- `(id ⊗ Φ ⊗ id)(ρ)` on `pre ⊗ d ⊗ post` (rows) / `pre' ⊗ d' ⊗ post'` (columns): entry at row
-    `(p, a, q)`, column `(p', b, q')` -/
-def partialSpec [Add α] [Mul α] [Zero α] [HasConj α] (r : Nat) (A B : Nat → Nat → Nat → α)
-    (di0 di1 do0 do1 post post' : Nat) (rho : Nat → Nat → α) : Nat → Nat → α :=
-  fun R C =>
-    let p := R / (do0 * post); let a := R / post % do0; let q := R % post
-    let p' := C / (do1 * post'); let b := C / post' % do1; let q' := C % post'
-    sumN r fun k => sumN di0 fun i => sumN di1 fun j =>
-      A k a i * rho ((p * di0 + i) * post + q) ((p' * di1 + j) * post' + q') * HasConj.conj (B k b j)
-
 /-- the Hilbert–Schmidt inner product `⟨Y, Z⟩ = tr(Yᴴ Z) = Σ_ab conj(Y[a,b]) · Z[a,b]` of `m × n` matrices -/
 def hsInner [Add α] [Mul α] [Zero α] [HasConj α] (m n : Nat) (Y Z : Nat → Nat → α) : α :=
   sumN m fun a => sumN n fun b => HasConj.conj (Y a b) * Z a b
